@@ -71,6 +71,9 @@ def run(ctx: Ctx) -> None:
     stride = 15
     progs = EL.enumerate_programs(ctx, deep=not ctx.quick, stride=stride, offset=1 + ctx.seed % stride)
     ctx.require(len(progs) >= 500, f"enumeration too small: {len(progs)}")
+    nall = len(progs)
+    progs = [p for p in progs if EL.expressible(p["e"])]
+    ctx.note("enumerated_not_expressible_in_user_code", nall - len(progs))
     nsingle = 0
     for p in progs:
         expr = EL.build(p["e"])
